@@ -2334,6 +2334,16 @@ static srtp_err_status_t srtp_unprotect_aead(srtp_ctx_t *ctx,
     }
 
     /*
+     * with cryptex the header extension elements are part of the encrypted
+     * portion: the whole extension must lie inside the packet as well
+     */
+    if (cryptex_inuse &&
+        srtp_get_rtp_hdr_len(hdr) + srtp_get_rtp_xtn_hdr_len(hdr, srtp) >
+            srtp_len - tag_len - stream->mki_size) {
+        return srtp_err_status_parse_err;
+    }
+
+    /*
      * We pass the tag down to the cipher when doing GCM mode
      */
     enc_octet_len = srtp_len - enc_start - stream->mki_size;
